@@ -62,15 +62,15 @@ type aggContext struct {
 }
 
 type scope struct {
-	parent  *scope
+	parent *scope
 	// cteParent, if set, is where CTE lookup continues (instead of parent)
 	cteParent *scope
-	rtes    []*rte
-	width   int
-	minRTE  int // rtes before this index are not visible (JOIN ... ON scoping)
-	ctes    map[string]*ctePlan
-	agg     *aggContext
-	noOuter bool
+	rtes      []*rte
+	width     int
+	minRTE    int // rtes before this index are not visible (JOIN ... ON scoping)
+	ctes      map[string]*ctePlan
+	agg       *aggContext
+	noOuter   bool
 }
 
 type aggSpec struct {
